@@ -16,8 +16,13 @@ pub fn fixed_str_to_bytes<const MAX_LEN: usize>(
     name: &str,
 ) -> Result<[u8; MAX_LEN], FixedStrError> {
     let bytes = name.as_bytes();
-    if bytes.len() > MAX_LEN {
+    // The stored form is NUL-terminated, so the name must leave room for the terminator.
+    if bytes.len() >= MAX_LEN {
         return Err(FixedStrError::ExceedMaxLengthLimit);
+    }
+    // An interior NUL would be read back as the end of the name.
+    if bytes.contains(&0) {
+        return Err(FixedStrError::InvalidFormat);
     }
     let mut buffer = [0; MAX_LEN];
     buffer[..bytes.len()].copy_from_slice(bytes);
